@@ -1873,6 +1873,7 @@ MUTANTS = [
     _m("csx-sparse-indices-axis-swapped", 'indices_dim = 0 if matrix_format == "csc" else 1', 'indices_dim = 1 if matrix_format == "csc" else 0',
        "R1", control=True),
     _m("stack-diag-csc-offset-by-columns", "        indices_offset = A.shape[0]\n", "        indices_offset = A.shape[1]\n", "R1"),
+    _m("seed-stack-diag-offset-arms-swapped", '    if A.getformat() == "csc":\n        indices_offset = A.shape[0]\n', '    if A.getformat() == "csr":\n        indices_offset = A.shape[0]\n', "R1"),
     _m("slice-csc-arm-builds-csr", "return sps.csc_matrix((data, indices, indptr), shape=(A.shape[0], N))",
        "return sps.csr_matrix((data, indices, indptr), shape=(A.shape[0], N))", "R1"),
     _m("slice-csr-shape-keeps-wrong-axis", "return sps.csr_matrix((data, indices, indptr), shape=(N, A.shape[1]))",
